@@ -4,7 +4,10 @@ from ..variants import parsers as _v
 
 ID = 'C10'
 CLAIM = '''
-Three explicit clauses only. UNIT ("error = value x printed sigma %"): every
+Four explicit clauses only. EDGE-END ("bins ... in increasing order whatever
+the order they were printed in"): the missing upper edge of a time / mu / phi
+grid is read from the first printed record and put in front when the grid was
+printed decreasing, from the last record and appended otherwise. UNIT ("error = value x printed sigma %"): every
 Dataset(...) of tripoli4/data_convertor.py whose error derives from a sigma
 field is, as a multiset of factors, sigma x score x 0.01 with sigma and score
 read from the same record and the score factor textually equal to the value
@@ -31,6 +34,7 @@ def check(ctx):
     ctx.run(parsers.check_unit)
     ctx.run(parsers.check_flip)
     ctx.run(parsers.check_sibling_bins)
+    ctx.run(parsers.check_edge_end)
 
 
 def variants(program):
